@@ -35,7 +35,7 @@ def check(ctx):
 
 
 MANIFEST = {
-    "technique": "static analysis: type-resolved who-may-call rule on chrono's local->instant constructors (zone type from the resolved generic arguments) + panic-site discharge",
+    "technique": "static analysis: type-resolved who-may-call rule on chrono's local->instant constructors (zone type from the resolved generic arguments) + exhaustive evaluation of the zone table against the writers' short name and the readers' lookup / length guard + must-pass rules on the zone constructors + panic-site discharge",
     "level": "Decides one necessary clause of C06 for every construction path at once: no code path builds the stored instant by re-interpreting local "
     "fields in a named zone. That clause is exactly what was broken on the pinned tree (2021-01-01T12:00:00+10:00 became 12:00Z); tests only use "
     "UTC and whole-hour single-digit offsets.",
